@@ -272,6 +272,57 @@ def register_dump(R):
                    note='relative to: pickle.loads(bytes.fromhex(_encode_metadata(m))) == m (assumed)'))
 
 
+def register_elision(R):
+    """The flag-elision loop of _node_representer (C18), lifted mechanically on every run: the statements from the assignment of
+    `tags_to_infer` up to and including the first `for` loop become a function of the locals they read (metadata, parent_metadata,
+    type_defaults) returning `metadata`.  DROPPED by the extraction: everything before (node.ayns.represent(), the dumper stack lookup)
+    and after (metadata exclusion, tag selection, encoding, the PyYAML calls).  What a dump may leave out without the re-parsed
+    document differing: a flag without a value; a priority / allow_new / safe flag equal to what the enclosing node wrote or to the
+    type default.  An explicit delete flag is observable as such when merging and is never left out; no other entry is touched."""
+    import ast
+    Y = 'awesomeyaml/yaml.py::'
+    if not hasattr(R, 'slices'):
+        R.slices = []
+    R.slices.append(dict(key=Y + '_node_representer', name='flag-elision',
+                         first=lambda st: isinstance(st, ast.Assign) and len(st.targets) == 1 and isinstance(st.targets[0], ast.Name) and st.targets[0].id == 'tags_to_infer',
+                         last=lambda st: isinstance(st, ast.For), returns='metadata'))
+    FLAGS = ('priority', 'delete', 'allow_new', 'safe')
+
+    def wf(c, m):
+        kk = z3.Const('!ek', Val)
+        return z3.And(m.len >= 0, S.FA([kk], z3.And(z3.Select(m.pos, kk) >= -1, z3.Select(m.pos, kk) < m.len), patterns=[z3.Select(m.pos, kk)]))
+
+    def req(c):
+        m, pm, td = c.pre.m(c.ref('metadata')), c.pre.m(c.ref('parent_metadata')), c.pre.m(c.ref('type_defaults'))
+        flagval = lambda v, f: (z3.Or(is_none(v), sym.is_int(v)) if f == 'priority' else z3.Or(is_none(v), is_bool(v)))
+        return [('well-formed-mappings', z3.And(wf(c, m), wf(c, pm), wf(c, td), c.ref('metadata') != c.ref('parent_metadata'), c.ref('metadata') != c.ref('type_defaults'))),
+                ('type-defaults-has-the-four-flags', z3.And(*[td.has(Val.str(z3.StringVal(f))) for f in FLAGS])),
+                ('flag-values', z3.And(*[z3.And(flagval(m.get(Val.str(z3.StringVal(f))), f), flagval(pm.get(Val.str(z3.StringVal(f))), f), flagval(td.get(Val.str(z3.StringVal(f))), f)) for f in FLAGS]))]
+
+    def ens(c):
+        m0, m1 = c.pre.m(c.ref('metadata')), c.post.m(c.ref('metadata'))
+        pm, td = c.pre.m(c.ref('parent_metadata')), c.pre.m(c.ref('type_defaults'))
+        out = [('result-is-the-same-mapping-object', c.rt == c['metadata'])]
+        d = Val.str(z3.StringVal('delete'))
+        out.append(('C18.an-explicit-delete-flag-is-always-written', z3.Implies(z3.And(m0.has(d), z3.Not(is_none(m0.get(d)))), z3.And(m1.has(d), m1.get(d) == m0.get(d)))))
+        for f in FLAGS:
+            k = Val.str(z3.StringVal(f))
+            parent = z3.If(z3.And(pm.len > 0, pm.has(k)), pm.get(k), Val.none)
+            out.append((f'C18.{f}-flag-left-out-only-without-a-value-or-when-the-enclosing-node-or-the-type-default-gives-it',
+                        z3.Implies(z3.And(m0.has(k), z3.Not(is_none(m0.get(k))), m0.get(k) != parent, m0.get(k) != td.get(k)), z3.And(m1.has(k), m1.get(k) == m0.get(k)))))
+        kk = z3.Const('!uk', Val)
+        out.append(('C18.user-metadata-is-never-touched-by-the-elision',
+                    S.FA([kk], z3.Implies(z3.And(*[kk != Val.str(z3.StringVal(f)) for f in FLAGS]), z3.And(m1.has(kk) == m0.has(kk), m1.get(kk) == m0.get(kk))), patterns=[m1.get(kk)])))
+        return out
+
+    R.add(Contract(Y + '_node_representer$flag-elision', [P.map('metadata'), P.map('parent_metadata'), P.map('type_defaults')], requires=req,
+                   modifies=lambda c: [(f, [c.ref('metadata')]) for f in ('$mlen', '$mkeyat', '$mpos', '$mval')],
+                   ensures=[('elision', ens)], result=P.val('result', 'any'), props=('C18',),
+                   opts={'verify_only': True, 'no_search': True, 'no_model_replay': True, 'shards': 8},
+                   note='statement slice of _node_representer lifted mechanically from the working tree on every run (see DESIGN 2.10); flag values are None, bool or int'))
+
+
 def _reg_all(R):
+    register_elision(R)
     register(R)
     register_dump(R)
